@@ -311,6 +311,7 @@ func runC09(e *Engine, r *Report) {
 	ruleTanFileInUse(e, r)
 	ruleLastBatchCache(e, r)
 	ruleLogReaderRebase(e, r)
+	ruleLogReaderNoCache(e, r)
 	ruleTanIndexAllNodes(e, r)
 	ruleAppendSetsRange(e, r)
 	ruleTanRemoveAll(e, r)
